@@ -28,10 +28,10 @@ type fsInode struct {
 }
 
 type fsDirOp struct {
-	kind     string // create | rename | remove
-	path     string
-	newPath  string
-	inode    *fsInode
+	kind    string // create | rename | remove
+	path    string
+	newPath string
+	inode   *fsInode
 }
 
 type SimFS struct {
@@ -63,8 +63,8 @@ func (fs *SimFS) AddExisting(path string, data []byte) {
 	fs.dirVol[path] = in
 }
 
-func (fs *SimFS) Install()   { verifos.SetHook(fs.hook) }
-func UninstallSimFS()        { verifos.SetHook(nil) }
+func (fs *SimFS) Install() { verifos.SetHook(fs.hook) }
+func UninstallSimFS()      { verifos.SetHook(nil) }
 
 func (fs *SimFS) hook(op verifos.Op, done bool, resErr error) error {
 	if !done {
